@@ -696,3 +696,22 @@ def err3(ctx):
             ctx.check(not bad, '%s:opens-existing-only' % b.path, b.span, 'existing WAL files are opened with read+write only', 'the function that opens an existing WAL file can create/truncate it (%s)' % bad, nontrivial=False)
     if n == 0:
         ctx.missing('reader', 'next_block / open_file not found')
+
+
+@rule('ERR4', ['C15', 'C03'], floor=10, template='error-not-dropped')
+def err4(ctx):
+    """On the write path too, no I/O error is swallowed: a mutating call whose WAL write / sync / GC failed
+    reports the error (otherwise bytes are written that no outcome reports, or an unsynced operation is
+    acknowledged)."""
+    from vocab import api_mut
+    rec = {b.id for b in recovery_bodies(ctx)}
+    n = 0
+    for b in reachable_bodies(ctx, api_mut(ctx)):
+        if b.id in rec or b.generic_dup():
+            continue
+        for cs in io_result_sites(ctx, b):
+            n += 1
+            kind, ok, why = classify_consumption(ctx, b, cs)
+            ctx.check(ok, '%s:%s' % (b.path, cs.path), where(b, cs.point), '%s: %s' % (kind, why), 'I/O error swallowed on the write path (%s): %s' % (kind, why))
+    if n < 10:
+        ctx.missing('sites', 'expected >= 10 io-bearing call sites in the mutating API bodies (the bodies shared with recovery are covered by ERR1)')
